@@ -54,6 +54,10 @@ def items(tier, seed):
             out.append({"k": "getvalues", "a": "m", "ka": ka, "n": n, "to": "km"})
             out.append({"k": "getvalues", "a": "degC", "ka": ka, "n": n, "to": "degF"})
         out.append({"k": "fromscalars", "n": n})
+    for op in OPS:
+        for kb in ("list", "tuple"):
+            out.append({"k": "aux_int_dtype", "op": op, "kb": kb, "b": "cm"})
+            out.append({"k": "aux_int_dtype", "op": op, "kb": kb, "b": "m"})
     out.append({"k": "op", "a": "m", "b": "cm", "op": "add", "ka": "list", "kb": "list", "n": 2, "m": 2, "canary": True})
     rng.shuffle(out)
     return out
@@ -136,6 +140,13 @@ def run(cfg, V):
             v = r.GetAbstractValue()
             out.update(vals=list(v), rq=qmap(r), ctype="ndarray" if isinstance(v, numpy.ndarray) else type(v).__name__, cls=type(r).__name__)
         return out
+    if k == "aux_int_dtype":
+        ia, fb = [1, 2, 3], [0.5, 1.25, 2.75]
+        A = Array(numpy.array(ia), "m")
+        B = Array(_container(cfg["kb"], fb), cfg["b"])
+        r = _apply(cfg["op"], A, B)
+        s = [_apply(cfg["op"], Scalar(float(a), "m"), Scalar(b, cfg["b"])) for a, b in zip(ia, fb)]
+        return {"vals": [float(v) for v in r.GetValues()], "want": [float(x.GetValue()) for x in s], "unit": (r.GetUnit(), s[0].GetUnit())}
     if k == "getvalues":
         xa = [V["a%d" % i] for i in range(cfg["n"])]
         A = _array(cfg["a"], cfg["ka"], xa)
@@ -183,6 +194,9 @@ def props(cfg, T, obs):
         if cfg.get("canary"):
             P.append(("canary:a+b has the elements of a", z3.And(*[approx(r, T["a%d" % i]) for i, r in enumerate(obs["vals"])])))
         return P
+    if k == "aux_int_dtype":
+        ok = len(obs["vals"]) == 3 and all(abs(a - b) <= 1e-12 * (abs(a) + abs(b) + 1) for a, b in zip(obs["vals"], obs["want"])) and obs["unit"][0] == obs["unit"][1]
+        return [("auxiliary, concrete (not solver-decided): an integer-dtype ndarray operand with a fractional list operand equals the Scalar results", ok)]
     if k == "getvalues":
         n = cfg["n"]
         P = [("GetValues(unit) converts element by element like Scalar.GetValue(unit)", z3.And(*[approx(a, b) for a, b in zip(obs["vals"], obs["scalar"])]) if n else True),
